@@ -268,6 +268,32 @@ def rule_p1(ctx, F):
         ctx.gate("P1", fn, [pt for pt, c, d in wt], [("the file is rewritten only with --update", "(*_).update", True)], accept_desc="rewriting the corpus file")
 
 
+def rule_f3(ctx, F):
+    """Delimiter recognition is exact: the only characters ignored after the repeated `=`/`-` are
+    line terminators.  (Ignoring more — blanks, arbitrary whitespace — turns input lines into
+    dividers and makes --update truncate inputs.)"""
+    fn = ctx.need_fn(F, "test::parse_delimiter_line", "F3")
+    if not fn:
+        return
+    trims = [(pt, c) for pt, c in fn.calls() if "::trim" in (c.get("fn") or "") and "trim_start_matches" not in c["fn"]]
+    ok = bool(trims)
+    why = "no trimming of the delimiter suffix found"
+    for pt, c in trims:
+        if not (c["fn"].endswith("::trim_end_matches") and "[char; 2]" in (c.get("targs") or "")):
+            ok, why = False, "the delimiter suffix is trimmed with `%s`%s, which ignores more than the line terminator" % (c["fn"].split("::")[-1], c.get("targs") or "")
+        else:
+            # the two characters are \r and \n
+            arr = strip(c["a"][1])
+            d = fn.single_def(arr["id"]) if arr.get("k") == "ref" else None
+            vals = sorted(strip(f["e"]).get("v") for f in strip(d).get("fields", [])) if d is not None and strip(d).get("k") == "agg" else None
+            if vals is not None and vals != [10, 13]:
+                ok, why = False, "the characters trimmed from a delimiter line are %s, not CR/LF" % vals
+    if ok:
+        ctx.ok("F3", "parse_delimiter_line:only-line-terminators-ignored", "after the repeated delimiter characters only CR/LF are stripped; anything else is the suffix", sample={"function": fn.name})
+    else:
+        ctx.bad("F3", "parse_delimiter_line:only-line-terminators-ignored", "parse_delimiter_line: %s — lines of the input that merely look like delimiters become delimiters and `--update` cuts the input there" % why, {"function": fn.name})
+
+
 def run(ctx):
     ctx.config = "rust"
     F = ctx.extract.rsfacts(CRATE)
@@ -275,6 +301,7 @@ def run(ctx):
     rule_f1(ctx, F)
     rule_f2(ctx, F)
     rule_p1(ctx, F)
+    rule_f3(ctx, F)
     return ctx.finish(
         "Field-flow, taint and path-counting rules over rustc MIR of crates/cli/src/test.rs: each TestCorrection is built from the entry's own name/input/attributes/delimiter lengths; "
         "the writer reads every field; with --update each Example path to Ok(true) records exactly one correction; the recognised delimiter suffix must reach the entry. "
